@@ -49,7 +49,7 @@ def main():
             t = time.time()
             p = subprocess.run(["/venv/bin/python", "-m", f"checks.{c.lower()}", "--tier", a.tier], cwd=ROOT, capture_output=True, text=True, env=env)
             v = [l for l in p.stdout.splitlines() if l.startswith("VIOLATION") or l.startswith("  key=") or l.startswith("BROKEN")]
-            print(f"{c}: rc={p.returncode} {time.time()-t:.1f}s " + (" | ".join(v[:6]) if v else ""))
+            print(f"{c}: rc={p.returncode} {time.time()-t:.1f}s " + (" | ".join(v[:6]) + (f" (+{len(v)-6} more lines)" if len(v) > 6 else "") if v else ""))
             if p.returncode not in (0, 1):
                 print(p.stdout[-1500:], p.stderr[-1500:])
             res[c] = p.returncode
